@@ -353,16 +353,25 @@ class Input(ContextManager["Input"]):
 
     def _nonblocking_read(self) -> int:
         """Returns the number of characters read and adds them to self.unprocessed_bytes"""
-        with Nonblocking(self.in_stream):
-            try:
-                data = os.read(self.in_stream.fileno(), READ_SIZE)
-            except BlockingIOError:
-                return 0
-            if data:
-                self.unprocessed_bytes.extend(data[i : i + 1] for i in range(len(data)))
-                return len(data)
-            else:
-                return 0
+        flags = fcntl.fcntl(self.in_stream.fileno(), fcntl.F_GETFL)
+        try:
+            with Nonblocking(self.in_stream):
+                try:
+                    data = os.read(self.in_stream.fileno(), READ_SIZE)
+                except BlockingIOError:
+                    return 0
+                if data:
+                    self.unprocessed_bytes.extend(
+                        data[i : i + 1] for i in range(len(data))
+                    )
+                    return len(data)
+                else:
+                    return 0
+        except BaseException:
+            # a KeyboardInterrupt may land while Nonblocking is switching the flags
+            # or putting them back: never leave the stream non-blocking
+            fcntl.fcntl(self.in_stream.fileno(), fcntl.F_SETFL, flags)
+            raise
 
     def event_trigger(
         self, event_type: Union[Type[events.Event], Callable[..., None]]
